@@ -444,7 +444,11 @@ var arpaBase = rapid.Custom(func(t *rapid.T) string {
 				ls = append(ls, arpaOct.Draw(t, "oct"))
 			}
 		}
-		ls[rapid.IntRange(0, n-1).Draw(t, "li")] = rapid.SampledFrom([]string{"1_0", "2_5", "1_2_3", "2_5_5", "1_1", "9_9", "1_0_0", "2_0", "+1", "-0", "0x1", "0xa", "0X1", "0b1", "0o7", "1e1", "1e0", "0_1", "1_", "_1", "1__0", "0x_1", "a_", "0xf", "+a", "1.", " 1", "1 ", "\t1", "1\n", "１", "٣", "0x0_1"}).Draw(t, "look")
+		ls[rapid.IntRange(0, n-1).Draw(t, "li")] = rapid.SampledFrom([]string{"1_0", "2_5", "1_2_3", "2_5_5", "1_1", "9_9", "1_0_0", "2_0", "+1", "-0", "0x1", "0xa", "0X1", "0b1", "0o7", "1e1", "1e0", "0_1", "1_", "_1", "1__0", "0x_1", "a_", "0xf", "+a", "1.", " 1", "1 ", "\t1", "1\n", "１", "٣", "0x0_1",
+			// Decimal numbers congruent to an octet value modulo 2^8, 2^16,
+			// 2^32 or 2^64 (a hand-written digit loop wraps silently).
+			"256", "257", "511", "65536", "65537", "65546", "4294967296", "4294967297", "4294967306", "18446744073709551616", "18446744073709551617", "18446744073709551626", "18446744073709551871",
+			"36893488147419103232", "340282366920938463463374607431768211456", "340282366920938463463374607431768211457", "00000000000000000000001", "1000000000000000000000"}).Draw(t, "look")
 		suf := "in-addr.arpa"
 		if v6 {
 			suf = "ip6.arpa"
